@@ -8,7 +8,7 @@ import (
 )
 
 // Harness for C01 (rewrites, statement merging, precedence-driven printing), end to end through js.Minify:
-// a program is generated from symbolic choices (fully parenthesised source text), minified, the output is parsed
+// a program is generated from symbolic choices (source text with the parentheses the grammar requires, or fully parenthesised), minified, the output is parsed
 // with the dependency's parser and BOTH programs are run by the mini reference evaluator below on symbolic
 // variable values. Equal: host-call trace (callee, argument values), completion (normal / return v / throw v)
 // and final values of the globals x and y.
@@ -70,7 +70,7 @@ func (s *jstate) fresh() jv {
 	k := s.nret
 	s.nret++
 	name := "ret" + string(rune('0'+k))
-	return jv{vByteRange(name+"t", 0, jO), vByteRange(name+"n", 0, 1)}
+	return jv{vByteRange(name+"t", 0, jB), vByteRange(name+"n", 0, 1)} // undefined, null, false, true: every ToBoolean/nullish class
 }
 
 // evalExpr returns the value and whether an exception was thrown (thrown value in the result).
@@ -388,7 +388,9 @@ func jvEq(a, b jv) bool { return a.t == b.t && (a.t == jU || a.t == jN || a.n ==
 var jLeaves = []string{"a", "b", "true", "null", "undefined", "0", "\"\"", "f(1)", "a.p"}
 
 type jgen struct {
-	k int
+	k      int
+	leaves []string
+	full   bool // write every compound expression in parentheses
 }
 
 func (g *jgen) choice(n int) int {
@@ -397,55 +399,93 @@ func (g *jgen) choice(n int) int {
 	return c
 }
 
-// expr generates a fully parenthesised expression of at most the given depth.
-func (g *jgen) expr(depth int, out []byte) []byte {
+// reference precedence levels (ECMAScript grammar): comma 1, assignment 2, conditional 3, || and ?? 4, && 5,
+// equality 9, unary 14, call/member 17, primary 18
+const (
+	pComma  = 1
+	pAssign = 2
+	pCond   = 3
+	pOr     = 4
+	pAnd    = 5
+	pBitOr  = 6
+	pEq     = 9
+	pUnary  = 14
+	pCall   = 17
+	pPrim   = 18
+)
+
+// expr appends an expression of at most the given depth that may stand where precedence `need` is required.
+// With g.full every compound is parenthesised; otherwise only the parentheses the grammar requires are written.
+func (g *jgen) expr(depth int, out []byte) []byte { return g.exprP(depth, pAssign, out) }
+
+func (g *jgen) exprP(depth, need int, out []byte) []byte {
 	if depth == 0 {
-		return append(out, jLeaves[g.choice(len(jLeaves))]...)
+		lv := g.leaves
+		if lv == nil {
+			lv = jLeaves
+		}
+		l := lv[g.choice(len(lv))]
+		if l == "void 0" && need > pUnary && !g.full {
+			return append(append(append(out, '('), l...), ')')
+		}
+		return append(out, l...)
 	}
 	op := g.choice(13)
+	if op == 0 {
+		return g.exprP(0, need, out)
+	}
+	prec := []int{0, pUnary, pAnd, pOr, pOr, pComma, pCond, pEq, pEq, pEq, pEq, pAssign, pCall}[op]
+	paren := g.full || prec < need
+	if paren {
+		out = append(out, '(')
+	}
 	switch op {
-	case 0:
-		return g.expr(0, out)
 	case 1:
-		out = append(out, "(!"...)
-		out = g.expr(depth-1, out)
-		return append(out, ')')
-	case 2, 3, 4, 5:
-		sym := []string{"&&", "||", "??", ","}[op-2]
-		out = append(out, '(')
-		out = g.expr(depth-1, out)
-		out = append(out, sym...)
-		out = g.expr(depth-1, out)
-		return append(out, ')')
+		out = append(out, '!')
+		out = g.exprP(depth-1, pUnary, out)
+	case 2:
+		out = g.exprP(depth-1, pAnd, out)
+		out = append(out, "&&"...)
+		out = g.exprP(depth-1, pBitOr, out)
+	case 3:
+		out = g.exprP(depth-1, pAnd, out) // not pOr: a ?? operand must not appear bare next to ||
+		out = append(out, "||"...)
+		out = g.exprP(depth-1, pAnd, out)
+	case 4:
+		out = g.exprP(depth-1, pBitOr, out)
+		out = append(out, "??"...)
+		out = g.exprP(depth-1, pBitOr, out)
+	case 5:
+		out = g.exprP(depth-1, pComma, out)
+		out = append(out, ',')
+		out = g.exprP(depth-1, pAssign, out)
 	case 6:
-		out = append(out, '(')
-		out = g.expr(depth-1, out)
+		out = g.exprP(depth-1, pOr, out)
 		out = append(out, '?')
-		out = g.expr(depth-1, out)
+		out = g.exprP(depth-1, pAssign, out)
 		out = append(out, ':')
-		out = g.expr(depth-1, out)
-		return append(out, ')')
+		out = g.exprP(depth-1, pAssign, out)
 	case 7, 8, 9, 10:
-		sym := []string{"==null", "!=null", "===undefined", "!==undefined"}[op-7]
-		out = append(out, '(')
-		out = g.expr(depth-1, out)
-		out = append(out, sym...)
-		return append(out, ')')
+		out = g.exprP(depth-1, pEq, out)
+		out = append(out, []string{"==null", "!=null", "===undefined", "!==undefined"}[op-7]...)
 	case 11:
-		out = append(out, "(a="...)
-		out = g.expr(depth-1, out)
-		return append(out, ')')
+		out = append(out, "a="...)
+		out = g.exprP(depth-1, pAssign, out)
 	default:
 		out = append(out, "f("...)
-		out = g.expr(depth-1, out)
-		return append(out, ')')
+		out = g.exprP(depth-1, pAssign, out)
+		out = append(out, ')')
 	}
+	if paren {
+		out = append(out, ')')
+	}
+	return out
 }
 
 func jSymParams() [3]jv {
 	var p [3]jv
 	for i := range p {
-		p[i] = jv{vByteRange("p"+string(rune('0'+i))+"t", 0, jO), vByteRange("p"+string(rune('0'+i))+"n", 0, 1)}
+		p[i] = jv{vByteRange("p"+string(rune('0'+i))+"t", 0, jB), vByteRange("p"+string(rune('0'+i))+"n", 0, 1)}
 	}
 	return p
 }
@@ -496,7 +536,7 @@ func verifJSProgram(body []byte, version int) {
 
 // VerifJSExpr: x=E; with E of depth n.
 func VerifJSExpr(n int) {
-	g := &jgen{}
+	g := &jgen{full: vBool("parens")}
 	body := g.expr(n, []byte("x="))
 	verifJSProgram(append(body, ';'), 0)
 }
@@ -559,4 +599,46 @@ func VerifJSTail(n int) {
 	}
 	emit(jStmts[g.choice(len(jStmts))])
 	verifJSProgram(body, 0)
+}
+
+// VerifJSNested: x=(C?X:Y), x=(X op Y) and x=!(X) where one operand position (chosen symbolically) holds an expression
+// of depth 1 and the others are leaves out of a short list: precedence/grouping of nested conditional, assignment,
+// comma and logical expressions inside the rewrites of optimizeCondExpr / optimizeBooleanExpr.
+func VerifJSNested(n int) {
+	g := &jgen{leaves: []string{"a", "b", "f(1)"}}
+	shape := n // 0: conditional, 1: &&, 2: ||, 3: !(..??..)
+	pos := g.choice(3)
+	d := func(i int) int {
+		if i == pos {
+			return 1
+		}
+		return 0
+	}
+	body := []byte("x=")
+	switch shape {
+	case 0:
+		body = g.exprP(d(0), pOr, body)
+		body = append(body, '?')
+		body = g.exprP(d(1), pAssign, body)
+		body = append(body, ':')
+		body = g.exprP(d(2), pAssign, body)
+	case 1:
+		vAssume(pos < 2)
+		body = g.exprP(d(0), pAnd, body)
+		body = append(body, "&&"...)
+		body = g.exprP(d(1), pBitOr, body)
+	case 2:
+		vAssume(pos < 2)
+		body = g.exprP(d(0), pAnd, body)
+		body = append(body, "||"...)
+		body = g.exprP(d(1), pAnd, body)
+	default:
+		vAssume(pos < 2)
+		body = append(body, "!("...)
+		body = g.exprP(d(0), pBitOr, body)
+		body = append(body, "??"...)
+		body = g.exprP(d(1), pBitOr, body)
+		body = append(body, ')')
+	}
+	verifJSProgram(append(body, ';'), 0)
 }
